@@ -1526,6 +1526,8 @@ class Interp:
         raise Unsupported(f"call of external {name}", node)
 
     def numpy(self, fn, args, kwargs, node):
+        if fn in ("result_type", "promote_types", "common_type"):
+            return "<dtype>"       # exact values carry no storage type
         if fn in ("ndim", "isscalar") and args and isinstance(
                 args[0], (bool, int, float, Fraction, str, list, tuple)):
             v, d = args[0], 0
